@@ -657,7 +657,8 @@ class SamplingMethod(DirectMethod):
     def fill_placeholders_integral_control(self, phase, stage, expr, refine=1):
         if phase==1: return
         [ts,exprs] = stage._sample(expr,grid='control',refine=refine)
-        return ca.sum2(ca.diff(ts).T*exprs[:,:-1])
+        # control_grid is a column for UniformGrid but a row for the other grid classes
+        return ca.sum2(ca.diff(ca.vec(ts)).T*exprs[:,:-1])
         r = 0
         for k in range(self.N):
             dt = self.control_grid[k + 1] - self.control_grid[k]
